@@ -318,6 +318,21 @@ Section FormsNoFlags.
     unfold write_op. rewrite K0. cbn [opt_done]. split; reflexivity.
   Qed.
 
+  (* the moffs encoding (A0..A3: accumulator and an absolute address): the same helper call *)
+  Theorem mov_rax_moffs64_refines : i_code i = C_Mov_RAX_moffs64 -> refines (SMov 64) (instr_mov_rax_moffs64 c i s).
+  Proof.
+    intros Ec. unfold refines, instr_mov_rax_moffs64. rewrite Ec.
+    rewrite (bind_ok _ _ _ _ _ (dbg_code_ok c s _ eq_refl)).
+    cbn [isa_exec].
+    match goal with |- context [calculate_r_rm_64 c i ?op ?fs ?fc s] =>
+      pose proof (calc_r_rm_64_shape c i s Hwf HI Hn K0 H0 Hs1 op fs fc) as SH end.
+    destruct (read_op i 1 64 s) as [sv|]; [|exact SH]. destruct SH as [Hsv SH].
+    rewrite (SH _ eq_refl). rewrite (bind_ok _ _ _ _ _ (set_flags_unaffected c _ s)).
+    change (Z.land FLAGS_UNAFFECTED NO_WRITEBACK =? 0) with true. cbv iota.
+    rewrite (reg_write_64_ok c _ _ _ H0).
+    unfold write_op. rewrite K0. cbn [opt_done]. split; reflexivity.
+  Qed.
+
   (* CMOVcc r64, r/m64: the source is read (and may fault) whether or not the condition holds *)
   Lemma cmov_generic (b : bool) :
     match read_op i 1 64 s with
